@@ -478,8 +478,32 @@ func c13Reads(c *Ctx) {
 		}
 		res := e.Reach([]*ssa.Function{en.Fn}, false)
 		bad := false
+		// a callback may open a table of its own (s3db_changes re-opens the two versions when it is
+		// scanned again): accepted when the open is forced read-only where it is made — the options
+		// handed to OpenKV are a local copy with ReadOnly stored true — and, with the read-only gates
+		// honoured, no mutating request is reachable
+		var gated *an.ReachResult
+		forced := func(path []an.Step) bool {
+			for _, st := range path {
+				if forcesReadOnlyOpen(c, st.Caller) {
+					if gated == nil {
+						gated = e.Reach([]*ssa.Function{en.Fn}, true)
+					}
+					for _, h := range gated.Hits {
+						if h.Kind == an.SinkMut {
+							return false
+						}
+					}
+					return true
+				}
+			}
+			return false
+		}
 		for _, h := range res.Hits {
 			if h.Kind == an.SinkMut {
+				if forced(h.Path) {
+					continue
+				}
 				bad = true
 				c.R.Bad(rule, en.Name()+" -> "+h.Sink.Name(), c.P.Pos(en.Fn.Pos()), "query-side callback can reach a mutating S3 request", e.PathStrings(h.Path)...)
 			}
@@ -488,4 +512,42 @@ func c13Reads(c *Ctx) {
 			c.R.OK(rule, en.Name(), c.P.Pos(en.Fn.Pos()), fmt.Sprintf("reaches no mutating request, gates ignored (%d functions visited, %d read sinks)", res.Visited, len(res.Hits)))
 		}
 	}
+}
+
+
+// forcesReadOnlyOpen: fn calls OpenKV with options that are a local copy in which ReadOnly is
+// stored as the constant true before the call.
+func forcesReadOnlyOpen(c *Ctx, fn *ssa.Function) bool {
+	openKV := c.P.LookupFunc("", "", "OpenKV")
+	soRO := an.LookupField(c.P, "", "S3Options", "ReadOnly")
+	if fn == nil || openKV == nil || soRO == nil {
+		return false
+	}
+	for _, call := range an.Calls(fn) {
+		if call.Common().StaticCallee() != openKV || len(call.Common().Args) < 2 {
+			continue
+		}
+		ld, ok := call.Common().Args[1].(*ssa.UnOp)
+		if !ok || ld.Op != token.MUL {
+			continue
+		}
+		al, ok := ld.X.(*ssa.Alloc)
+		if !ok {
+			continue
+		}
+		for _, r := range *al.Referrers() {
+			fa, ok := r.(*ssa.FieldAddr)
+			if !ok || an.FieldVar(fa.X.Type(), fa.Field) != soRO {
+				continue
+			}
+			for _, rr := range *fa.Referrers() {
+				if st, ok := rr.(*ssa.Store); ok && st.Addr == ssa.Value(fa) {
+					if cb, isC := constBool(st.Val); isC && cb && an.InstrBefore(st, call.(ssa.Instruction)) {
+						return true
+					}
+				}
+			}
+		}
+	}
+	return false
 }
